@@ -15,7 +15,6 @@ use std::alloc::{GlobalAlloc, Layout, System};
 use std::collections::{BTreeMap, HashSet};
 use std::panic::{self, AssertUnwindSafe};
 use std::sync::atomic::{AtomicBool, AtomicU64, Ordering::Relaxed};
-use std::sync::Mutex;
 use std::time::Instant;
 
 // ---------------------------------------------------------------------------
@@ -87,6 +86,10 @@ fn budget_exceeded(allocs: u64, bytes: u64) -> ! {
 
 unsafe impl GlobalAlloc for CountingAlloc {
     unsafe fn alloc(&self, l: Layout) -> *mut u8 {
+        if MT_MODE.load(Relaxed) {
+            // concurrent mode: no step budget, and no shared counters to fight over
+            return System.alloc(l);
+        }
         let a = ALLOCS.fetch_add(1, Relaxed) + 1;
         let b = BYTES.fetch_add(l.size() as u64, Relaxed) + l.size() as u64;
         if IN_CASE.load(Relaxed)
@@ -100,6 +103,9 @@ unsafe impl GlobalAlloc for CountingAlloc {
         System.dealloc(p, l)
     }
     unsafe fn realloc(&self, p: *mut u8, l: Layout, n: usize) -> *mut u8 {
+        if MT_MODE.load(Relaxed) {
+            return System.realloc(p, l, n);
+        }
         let a = ALLOCS.fetch_add(1, Relaxed) + 1;
         let grow = n.saturating_sub(l.size()) as u64;
         let b = BYTES.fetch_add(grow, Relaxed) + grow;
@@ -116,7 +122,19 @@ unsafe impl GlobalAlloc for CountingAlloc {
 // Panic capture
 // ---------------------------------------------------------------------------
 
-static LAST_PANIC: Mutex<Option<String>> = Mutex::new(None);
+thread_local! {
+    /// Message of the last panic on this thread (the hook runs on the
+    /// panicking thread, the catch site reads it on the same one).
+    static LAST_PANIC: std::cell::RefCell<Option<String>> = const { std::cell::RefCell::new(None) };
+    /// Is this thread inside a monitored case?  (Per thread, for the panic
+    /// hook; the step budget uses the process-wide IN_CASE.)
+    static IN_CASE_TL: std::cell::Cell<bool> = const { std::cell::Cell::new(false) };
+}
+
+/// Concurrent mode (`pvh run-mt`): several monitors run at once in one
+/// process.  The step budget and the published case number are process-wide
+/// and therefore switched off; everything else is per `Cx`.
+pub static MT_MODE: AtomicBool = AtomicBool::new(false);
 
 pub fn install_panic_hook() {
     panic::set_hook(Box::new(|info| {
@@ -131,13 +149,11 @@ pub fn install_panic_hook() {
         } else {
             "<non-string panic payload>".to_string()
         };
-        if !IN_CASE.load(Relaxed) {
+        if !IN_CASE_TL.with(|c| c.get()) {
             // a panic outside a monitored case is a harness error: show it
             eprintln!("pvh: harness panic at {loc}: {msg}");
         }
-        if let Ok(mut g) = LAST_PANIC.lock() {
-            *g = Some(format!("panic at {loc}: {msg}"));
-        }
+        LAST_PANIC.with(|g| *g.borrow_mut() = Some(format!("panic at {loc}: {msg}")));
     }));
 }
 
@@ -324,6 +340,9 @@ impl Cx {
     /// Set the step budget for the following cases (allocation count and
     /// allocated bytes per case).  The default is 2^24 allocations / 1 GiB.
     pub fn set_budget(&mut self, allocs: u64, bytes: u64) {
+        if MT_MODE.load(Relaxed) {
+            return;
+        }
         ALLOC_LIMIT.store(allocs, Relaxed);
         BYTES_LIMIT.store(bytes, Relaxed);
     }
@@ -353,20 +372,27 @@ impl Cx {
         if self.trace {
             eprintln!("TRACE idx={idx}");
         }
-        CUR_IDX.store(idx, Relaxed);
+        let mt = MT_MODE.load(Relaxed);
         PROGRESS.fetch_add(1, Relaxed);
         let a0 = ALLOCS.load(Relaxed);
         let b0 = BYTES.load(Relaxed);
-        // Limits are per case: rebase them on the current totals.
         let (al, bl) = (ALLOC_LIMIT.load(Relaxed), BYTES_LIMIT.load(Relaxed));
-        ALLOC_LIMIT.store(a0.saturating_add(al), Relaxed);
-        BYTES_LIMIT.store(b0.saturating_add(bl), Relaxed);
-        IN_CASE.store(true, Relaxed);
+        if !mt {
+            CUR_IDX.store(idx, Relaxed);
+            // Limits are per case: rebase them on the current totals.
+            ALLOC_LIMIT.store(a0.saturating_add(al), Relaxed);
+            BYTES_LIMIT.store(b0.saturating_add(bl), Relaxed);
+            IN_CASE.store(true, Relaxed);
+        }
+        IN_CASE_TL.with(|c| c.set(true));
         let ev = &mut self.ev;
         let r = panic::catch_unwind(AssertUnwindSafe(|| body(ev)));
-        IN_CASE.store(false, Relaxed);
-        ALLOC_LIMIT.store(al, Relaxed);
-        BYTES_LIMIT.store(bl, Relaxed);
+        IN_CASE_TL.with(|c| c.set(false));
+        if !mt {
+            IN_CASE.store(false, Relaxed);
+            ALLOC_LIMIT.store(al, Relaxed);
+            BYTES_LIMIT.store(bl, Relaxed);
+        }
         let da = ALLOCS.load(Relaxed) - a0;
         let db = BYTES.load(Relaxed) - b0;
         if da > self.max_allocs {
@@ -380,11 +406,7 @@ impl Cx {
             Ok(Ok(())) => None,
             Ok(Err(f)) => Some(("mismatch", f.sig.map(|s| s.to_string()), f.msg)),
             Err(_) => {
-                let m = LAST_PANIC
-                    .lock()
-                    .ok()
-                    .and_then(|mut g| g.take())
-                    .unwrap_or_else(|| "panic (no message)".into());
+                let m = LAST_PANIC.with(|g| g.borrow_mut().take()).unwrap_or_else(|| "panic (no message)".into());
                 Some(("panic", None, m))
             }
         };
